@@ -436,3 +436,37 @@ class NamedLambda:
         if n == 0:
             raise ExtractionDrift("named lambda %s is never called in %s" % (self.name, where))
         return text
+
+
+class MulToUF:
+    """Lower multiplicative chains `A * B * C` over simple operands to nested calls MUL(MUL(A, B), C).
+
+    Operands: numbers, identifiers with member access / subscripts, or one-level calls `F(args-without-parens)`.
+    Used where products are treated as uninterpreted (MUL is made commutative by its definition in the prelude text)."""
+
+    OPERAND = r"(?:\d+(?:\.\d*)?|[A-Za-z_]\w*(?:\((?:[^()]|\([^()]*\))*\))?(?:(?:->|\.)\w+|\[[^\[\]]*\])*)"
+
+    def __init__(self, fn="MUL", note="products -> uninterpreted commutative function"):
+        self.fn = fn
+        self.note = note
+        self.pat = "mul-to-uf"
+
+    def apply(self, text, report, where):
+        chain = re.compile(r"(?<![\w\)\]])(%s(?:\s*\*\s*%s)+)" % (self.OPERAND, self.OPERAND))
+        n = 0
+
+        def repl(m):
+            nonlocal n
+            ops = [o.strip() for o in re.split(r"\s*\*\s*", m.group(1))]
+            acc = ops[0]
+            for o in ops[1:]:
+                acc = "%s(%s, %s)" % (self.fn, acc, o)
+                n += 1
+            return acc
+
+        out_lines = []
+        for ln in text.split("\n"):
+            # do not touch declarations of pointers (`T* x`) -- chains need spaces around '*' or numeric/identifier operands on both sides
+            out_lines.append(chain.sub(repl, ln) if " * " in ln else ln)
+        report.append({"where": where, "rule": self.pat, "fires": n, "expected": "*", "note": self.note})
+        return "\n".join(out_lines)
